@@ -470,6 +470,31 @@ func (E *Engine) VerifyFunc(p *packages.Package, pc *PkgContracts, c *FuncContra
 			res.Obls = append(res.Obls, o)
 		}
 	}
+	for _, fa := range c.FreshArgs {
+		kf := fa[1]
+		field := ""
+		if i := strings.Index(kf, "."); i > 0 {
+			kf, field = kf[:i], kf[i+1:]
+		}
+		var k int
+		fmt.Sscanf(kf, "%d", &k)
+		ok, why, sites, used := E.freshArg(p, pc, decl, fa[0], k, field)
+		o := &Obligation{Name: fmt.Sprintf("%s/fresharg.%s.%s", f.key, fa[0], fa[1]), Kind: "fresh", Fn: f.key, Pkg: p.PkgPath, Props: c.Props,
+			Text: fmt.Sprintf("fresharg %s %s: at every call the argument is a container this function owns (newly allocated or a fresh copy), never storage shared with the caller, the receiver or package state", fa[0], fa[1]),
+			Src:  fmt.Sprintf("%s:%d", shortPath(c.File), c.Line)}
+		switch {
+		case sites == 0:
+			o.Decided, o.Output = "sat", "ownership rule: no call of "+fa[0]+" found in the body"
+		case ok:
+			o.Decided, o.Output = "unsat", fmt.Sprintf("ownership rule: %d call site(s), each argument is an allocation or a fresh copy", sites)
+		default:
+			o.Decided, o.Output = "sat", "ownership rule: "+why
+		}
+		for _, u := range used {
+			f.note("assumed by the ownership rule: " + u)
+		}
+		res.Obls = append(res.Obls, o)
+	}
 	for _, ro := range c.ReadOnly {
 		ok, why, assumed := readonlyRule(p, decl, ro)
 		o := &Obligation{Name: fmt.Sprintf("%s/readonly.%s", f.key, ro), Kind: "fresh", Fn: f.key, Pkg: p.PkgPath, Props: c.Props,
